@@ -273,3 +273,48 @@ package main
 //@   ensures [C11] pending_creds: len(missing) > 0 ==> s.uid == old(s.uid) && s.authLvl == old(s.authLvl)
 //@   ensures [C11] nologin: (old(rec.Features) & auth.FeatureNoLogin) != 0 ==> s.uid == old(s.uid) && s.authLvl == old(s.authLvl)
 //@   ensures [C11] identity: s.uid != old(s.uid) || s.authLvl != old(s.authLvl) ==> s.uid == old(rec.Uid) && s.authLvl == old(rec.AuthLevel)
+
+// ---------------------------------------------------------------------------------------------
+// C17: cluster placement and leader election (per-node obligations)
+// ---------------------------------------------------------------------------------------------
+// A candidate declares itself leader only with votes from a strict majority of all configured nodes
+// (len(c.nodes) other nodes + itself), and always moves to the next term first.
+//@ func (c *Cluster) electLeader()
+//@   requires [C17] c != nil && c.fo != nil && c.thisNodeName != ""
+//@   modifies inferred
+//@   ensures [C17] next_term: c.fo.term == old(c.fo.term) + 1
+//@   ensures [C17] self_or_none: c.fo.leader == "" || c.fo.leader == c.thisNodeName
+//@   assert at call statsSet#2 [C17] majority: voteCount >= expectVotes && 2 * expectVotes > nodeCount + 1 && nodeCount == len(c.nodes)
+//@   loop 2
+//@     invariant votes: voteCount >= 0 && expectVotes == (nodeCount + 1) / 2 + 1 && nodeCount == len(c.nodes)
+
+// The election loop of one node, for arbitrary received health checks and vote requests (loss, delay, reordering and
+// partition are all "some message is or is not received"). Health checks are sent by other nodes about themselves.
+//@ func (c *Cluster) run()
+//@   requires [C17] c != nil && c.fo != nil && c.thisNodeName != ""
+//@   modifies inferred
+//@   onrecv c.fo.healthCheck as h: h != nil && h.Leader != c.thisNodeName && h.Leader != ""
+//@   onrecv c.fo.electionVote as v: v != nil && v.req != nil
+//@   loop 1
+//@     invariant term_monotone: c.fo.term >= old(c.fo.term)
+//@     iterates [C17] term_never_decreases: c.fo.term >= prev(c.fo.term)
+//@     iterates [C17] step_down: prev(c.fo.leader) == c.thisNodeName && c.fo.term > prev(c.fo.term) ==> c.fo.leader != c.thisNodeName
+//@     iterates [C17] leader_only_by_election: c.fo.leader == c.thisNodeName && prev(c.fo.leader) != c.thisNodeName ==> c.fo.term == prev(c.fo.term) + 1 && prev(missed) + 1 >= c.fo.voteTimeout
+
+// A node whose ring differs from the sender's refuses topic traffic - on every request, not only the first.
+//@ func (c *Cluster) TopicMaster(msg *ClusterReq, rejected *bool) (err error)
+//@   requires [C17] c != nil && msg != nil && rejected != nil && c.ring != nil
+//@   modifies inferred
+//@   ensures [C17] signature_gate: old(!msg.Gone && msg.Signature != c.ring.signature) ==> *rejected || old(!(msg.Node in c.nodes) || c.nodes[msg.Node] == nil)
+//@   ensures [C17] nothing_routed: old(!msg.Gone && msg.Signature != c.ring.signature) ==> sent(globals.hub.join) == old(sent(globals.hub.join)) && sent(globals.hub.routeCli) == old(sent(globals.hub.routeCli))
+
+//@ func (c *Cluster) Route(msg *ClusterRoute, rejected *bool) (err error)
+//@   requires [C17] c != nil && msg != nil && rejected != nil && c.ring != nil
+//@   modifies inferred
+//@   ensures [C17] signature_gate: old(msg.Signature != c.ring.signature) ==> *rejected && sent(globals.hub.routeSrv) == old(sent(globals.hub.routeSrv))
+
+// A node that can reach no more than half of the configured nodes reports itself partitioned.
+//@ func (c *Cluster) isPartitioned() (res bool)
+//@   modifies inferred
+//@   ensures [C17] half_or_less: c != nil && c.fo != nil ==> (res <==> 2 * len(c.fo.activeNodes) <= len(c.nodes) + 1)
+//@   ensures [C17] no_failover:  (c == nil || c.fo == nil) ==> !res
